@@ -247,6 +247,21 @@ func TestVerifC19(t *testing.T) {
 		}
 	}
 
+	// the contact group of the known contact: derived (GroupInfo by contact key stores it in the secret
+	// store), then looked up, activated and deactivated by its group key in every state of the cycle
+	if gi, err := svc.GroupInfo(ctx, &protocoltypes.GroupInfo_Request{ContactPk: craw}); err == nil && gi.Group != nil {
+		cgpk := gi.Group.PublicKey
+		pool.bytesets = append(pool.bytesets, cgpk)
+		directed["GroupInfo"] = append(directed["GroupInfo"], &protocoltypes.GroupInfo_Request{GroupPk: cgpk}, &protocoltypes.GroupInfo_Request{ContactPk: craw})
+		directed["ActivateGroup"] = append(directed["ActivateGroup"], &protocoltypes.ActivateGroup_Request{GroupPk: cgpk}, &protocoltypes.ActivateGroup_Request{GroupPk: cgpk, LocalOnly: true})
+		directed["DeactivateGroup"] = append(directed["DeactivateGroup"], &protocoltypes.DeactivateGroup_Request{GroupPk: cgpk})
+		directed["AppMessageSend"] = append(directed["AppMessageSend"], &protocoltypes.AppMessageSend_Request{GroupPk: cgpk, Payload: []byte("to the contact")})
+		directed["AppMetadataSend"] = append(directed["AppMetadataSend"], &protocoltypes.AppMetadataSend_Request{GroupPk: cgpk, Payload: []byte("to the contact")})
+		directed["ContactAliasKeySend"] = append(directed["ContactAliasKeySend"], &protocoltypes.ContactAliasKeySend_Request{GroupPk: cgpk})
+		directed["GroupMetadataList"] = append(directed["GroupMetadataList"], &protocoltypes.GroupMetadataList_Request{GroupPk: cgpk, UntilNow: true})
+		directed["GroupMessageList"] = append(directed["GroupMessageList"], &protocoltypes.GroupMessageList_Request{GroupPk: cgpk, UntilNow: true})
+	}
+
 	// invitations that ARE self-authenticating (secret signed by the group key they name) but whose
 	// secret has an unusual length: joined, then activated
 	var oddGroups [][]byte
